@@ -52,16 +52,22 @@ def run(tier):
         if bad_scan is not None:
             s = bad_scan
             d1 = (eqv == "diff" and r["g"]["mode"] == "multi" and s["impl"] == s["model"] and tabs_equal)
+            # two recorded findings live in the regular-definition machinery; they are told apart by the grammar:
+            # D24 needs a regular definition that matches the empty string, D1 does not
+            nullable_def = any(kd == 2 and gram.nullable_pat(pt) for kd, _, pt in r["g"]["lex"])
+            key = "D24-nullable-regdef" if nullable_def else "D1-regdef-sharing"
             ck.violation("lexer output differs from the reference pattern semantics: input bytes %s: real lexer %s ; reference %s" % (s["src"], s["impl"], s["ref"]),
                          {"bnf": r["text"], "op": s["line"], "impl": s["impl"], "reference": s["ref"], "model": s["model"], "lexeq": r["lexeq"]},
-                         finding_key="D1-regdef-sharing" if d1 else None)
+                         finding_key=key if d1 else None)
         elif eqv == "diff" and not (r["g"]["mode"] == "multi" and tabs_equal):
             # the generator model (== gocc) is not equivalent to the reference although no sampled input showed it:
             # replay the witness path of the product walk on the real lexer
             ck.violation("generator automaton differs from the reference semantics (%s)" % r["lexeq"],
                          {"bnf": r["text"], "lexeq": r["lexeq"]}, found_input=False)
         elif eqv == "diff":
-            ck.violation("regdef sharing (no sampled input differed)", {"bnf": r["text"], "lexeq": r["lexeq"]}, finding_key="D1-regdef-sharing")
+            nullable_def = any(kd == 2 and gram.nullable_pat(pt) for kd, _, pt in r["g"]["lex"])
+            ck.violation("regdef sharing (no sampled input differed)", {"bnf": r["text"], "lexeq": r["lexeq"]},
+                         finding_key="D24-nullable-regdef" if nullable_def else "D1-regdef-sharing")
         if not tabs_equal:
             ck.violation("correspondence broken: transition/action tables of the generated lexer differ from the generator model (Gocc.genLexer)",
                          {"bnf": r["text"], "impl": r.get("impl_tab"), "model": r.get("model_probe_tab"),
